@@ -1102,10 +1102,10 @@ def work(rep, args):
     _env()
     for d in oscore_env.tree_deviations():
         rep.add_drift("tree under test deviates from the RFC 8613 Appendix C vectors: " + d)
-    nsim = 150 if quick else 2500
+    nsim = 100 if quick else 2500
     nsamples = 150 if quick else 3000
     nsess_sim = 150 if quick else 2500
-    nsess_rand = 120 if quick else 3000
+    nsess_rand = 100 if quick else 3000
     sess_consts = dict(nreq=2, nresp=3, nburn=1, ndel=4) if quick else dict(nreq=2, nresp=3, nburn=2, ndel=5)
     with tlc.Workdir() as wd:
         import threading
@@ -1117,19 +1117,34 @@ def work(rep, args):
             box["mc"] = tlc.run(wd, "Oscore.tla", "OS_mc.cfg", timeout=1800 if quick else 3400, workers=max(2, (os.cpu_count() or 4) - 4))
             wd.write("OS_mc2.cfg", MC_CFG % {"ko": "TRUE", "nreq": 1, "nresp": 1})
             box["mc2"] = tlc.run(wd, "Oscore.tla", "OS_mc2.cfg", timeout=900, workers=2)
+
+        def run_smc():
             wd.write("OSS_mc.cfg", SESSION_MC_CFG % dict(sess_consts, strike="FALSE"))
-            box["smc"] = tlc.run(wd, "OscoreSession.tla", "OSS_mc.cfg", timeout=1800 if quick else 3400, workers=max(2, (os.cpu_count() or 4) - 4))
+            box["smc"] = tlc.run(wd, "OscoreSession.tla", "OSS_mc.cfg", timeout=1800 if quick else 3400, workers=max(2, (os.cpu_count() or 4) // 2))
             wd.write("OSS_mc2.cfg", SESSION_MC_CFG % dict(nreq=2, nresp=2, nburn=1, ndel=3, strike="TRUE"))
             box["smc2"] = tlc.run(wd, "OscoreSession.tla", "OSS_mc2.cfg", timeout=900, workers=2)
 
         th = threading.Thread(target=run_mc)
         th.start()
+        th2 = threading.Thread(target=run_smc)
+        th2.start()
+        import time as _time
+
+        phases = {}
+        t0 = _time.time()
+
+        def mark(name):
+            nonlocal t0
+            phases[name] = round(_time.time() - t0, 1)
+            t0 = _time.time()
+
         wd.write("OS_sim.cfg", SIM_CFG)
         simdir = wd.file("sim")
         os.makedirs(simdir)
-        sim = tlc.run(wd, "Oscore.tla", "OS_sim.cfg", workers=1, timeout=900, simulate="file=%s/tr,num=%d" % (simdir, nsim), depth=40, seed=args.seed + 1)
+        sim = tlc.run(wd, "Oscore.tla", "OS_sim.cfg", workers=1, timeout=900, simulate="file=%s/tr,num=%d" % (simdir, nsim), depth=30 if quick else 40, seed=args.seed + 1)
         tlc.need_ok_run(sim, "Oscore simulation")
         behs = behaviours_from_sim(tlc.read_sim_traces(os.path.join(simdir, "tr")))
+        mark("tlc_simulate_attacker")
         # sessions: stateful contexts, genuine traffic, hostile delivery order
         wd.write("OSS_sim.cfg", SESSION_SIM_CFG)
         ssimdir = wd.file("ssim")
@@ -1137,6 +1152,7 @@ def work(rep, args):
         ssim = tlc.run(wd, "OscoreSession.tla", "OSS_sim.cfg", workers=1, timeout=900, simulate="file=%s/tr,num=%d" % (ssimdir, nsess_sim), depth=30, seed=args.seed + 2)
         tlc.need_ok_run(ssim, "OscoreSession simulation")
         sessions = sessions_from_sim(tlc.read_sim_traces(os.path.join(ssimdir, "tr")), rng)
+        mark("tlc_simulate_sessions")
         n_sess_sim = len(sessions)
         sessions += directed_sessions(rng, not quick)
         n_sess_directed = len(sessions) - n_sess_sim
@@ -1147,9 +1163,16 @@ def work(rep, args):
             if "error" in res:
                 raise MachineryError("driver failed on %s\n%s" % (json.dumps(it)[:500], res["error"]))
         results, sess_results = all_results[: len(items)], all_results[len(items) :]
+        mark("drive_real_code")
         validated, distinct_records, ndrift, nviol_events = validate_and_report(rep, wd, items, results)
+        mark("tlc_judge_results")
         sess_validated, sess_drift = validate_sessions(rep, wd, sessions, sess_results)
+        mark("tlc_judge_sessions")
         th.join()
+        th2.join()
+        mark("wait_for_exhaustive_runs")
+        phases["exhaustive_Oscore"] = round(box["mc"].wall + box["mc2"].wall, 1) if box.get("mc") and box.get("mc2") else None
+        phases["exhaustive_OscoreSession"] = round(box["smc"].wall + box["smc2"].wall, 1) if box.get("smc") and box.get("smc2") else None
         mc, mc2, smc, smc2 = box.get("mc"), box.get("mc2"), box.get("smc"), box.get("smc2")
         if mc is None or mc2 is None or smc is None or smc2 is None:
             raise MachineryError("Oscore model check did not run")
@@ -1221,6 +1244,7 @@ def work(rep, args):
                 "depth": mc.depth,
                 "mc_constants": {"IdCtxs": ["none", "g1"], "MaxReq": 2, "MaxResp": 2 if quick else 3, "KidOptional": False, "edits": 19, "recipients": ["peer", "foreign", "otherctx"]},
                 "exhaustive": True,
+                "phase_wall_s": phases,
                 "design_counterexample_with_kid_optional": mc2.violated,
                 "session_model": {
                     "states": smc.distinct, "transitions": smc.generated, "depth": smc.depth,
